@@ -1647,18 +1647,16 @@ class ProductSpaceArrayWeighting(ArrayWeighting):
         norm : float
             The norm of the provided element.
         """
-        if self.exponent == 2.0:
-            norm_squared = self.inner(x, x).real  # TODO: optimize?!
-            return np.sqrt(norm_squared)
+        # Also for exponent 2.0 the norm is the weighted norm of the
+        # component norms; the components need not have inner products
+        norms = np.fromiter(
+            (xi.norm() for xi in x), dtype=np.float64, count=len(x))
+        if self.exponent in (1.0, float('inf')):
+            norms *= self.array
         else:
-            norms = np.fromiter(
-                (xi.norm() for xi in x), dtype=np.float64, count=len(x))
-            if self.exponent in (1.0, float('inf')):
-                norms *= self.array
-            else:
-                norms *= self.array ** (1.0 / self.exponent)
+            norms *= self.array ** (1.0 / self.exponent)
 
-            return float(np.linalg.norm(norms, ord=self.exponent))
+        return float(np.linalg.norm(norms, ord=self.exponent))
 
 
 class ProductSpaceConstWeighting(ConstWeighting):
@@ -1755,19 +1753,17 @@ class ProductSpaceConstWeighting(ConstWeighting):
         norm : float
             The norm of the element.
         """
-        if self.exponent == 2.0:
-            norm_squared = self.inner(x, x).real  # TODO: optimize?!
-            return np.sqrt(norm_squared)
-        else:
-            norms = np.fromiter(
-                (xi.norm() for xi in x), dtype=np.float64, count=len(x))
+        # Also for exponent 2.0 the norm is the weighted norm of the
+        # component norms; the components need not have inner products
+        norms = np.fromiter(
+            (xi.norm() for xi in x), dtype=np.float64, count=len(x))
 
-            if self.exponent in (1.0, float('inf')):
-                return (self.const *
-                        float(np.linalg.norm(norms, ord=self.exponent)))
-            else:
-                return (self.const ** (1 / self.exponent) *
-                        float(np.linalg.norm(norms, ord=self.exponent)))
+        if self.exponent in (1.0, float('inf')):
+            return (self.const *
+                    float(np.linalg.norm(norms, ord=self.exponent)))
+        else:
+            return (self.const ** (1 / self.exponent) *
+                    float(np.linalg.norm(norms, ord=self.exponent)))
 
     def dist(self, x1, x2):
         """Calculate the constant-weighted distance between two elements.
